@@ -88,6 +88,35 @@ func genC01(tier string, seed uint64, emit func(string)) {
 		d := bytes.Repeat([]byte{'7'}, sz)
 		emit("rt " + (&Node{Kind: 'a', Es: []*Node{{Kind: 'i', P: d}, {Kind: 's', P: []byte("OK")}}}).String())
 	}
+	// the length prefix for every payload length: a complete sweep of the small lengths and windows around every
+	// power of ten, power of two and multiple of 1000 / 4096 (digit-count and buffer-size borders)
+	{
+		full, top := 4200, 1<<20
+		if tier == "thorough" {
+			full, top = 70000, 1<<24
+		}
+		for lo := 0; lo < full; lo += 300 {
+			emit(fmt.Sprintf("enclen %d %d", lo, min(lo+300, full)))
+		}
+		seen := map[int]bool{}
+		var centers []int
+		for v := 1; v <= top+1000000; v *= 10 {
+			centers = append(centers, v, 2*v, 5*v)
+		}
+		for v := 4096; v <= top; v *= 2 {
+			centers = append(centers, v)
+		}
+		for k := 5; k <= 100; k++ {
+			centers = append(centers, k*1000)
+		}
+		for _, c := range centers {
+			if c-3 < full || c > top+1000000 || seen[c] {
+				continue
+			}
+			seen[c] = true
+			emit(fmt.Sprintf("enclen %d %d", c-3, c+4))
+		}
+	}
 	// constructors
 	for _, v := range boundaryInts {
 		emit("ctor int " + strconv.FormatInt(v, 10))
@@ -203,8 +232,86 @@ func bucket(n int) string {
 	return ">4k"
 }
 
+// enclenPayload: the payload of length n used by the enclen sweep (deterministic, every byte value occurs).
+func enclenPayload(n int) []byte {
+	p := make([]byte, n)
+	for i := range p {
+		p[i] = byte(i*7 + n)
+	}
+	return p
+}
+
+func fnvAdd(h uint64, b []byte) uint64 {
+	for _, c := range b {
+		h = (h ^ uint64(c)) * 1099511628211
+	}
+	return h
+}
+
+// enclenDigest folds what matters of one serialization (its first 24 bytes, its length, its last two bytes) into h.
+func enclenDigest(h uint64, b []byte) uint64 {
+	head := b
+	if len(head) > 24 {
+		head = head[:24]
+	}
+	h = fnvAdd(h, head)
+	h = fnvAdd(h, []byte(strconv.Itoa(len(b))))
+	if len(b) >= 2 {
+		h = fnvAdd(h, b[len(b)-2:])
+	}
+	return h
+}
+
+// runEnclen: "enclen <lo> <hi>": a bulk string of every length lo <= n < hi is serialized by the real serializer, alone
+// and as an array element; the length prefix must equal the payload length, the payload must follow byte for byte,
+// and the bytes must parse back to the same value.  The observable is a digest of all the serializations.
+func runEnclen(toks []string) Result {
+	lo, _ := strconv.Atoi(toks[1])
+	hi, _ := strconv.Atoi(toks[2])
+	h := uint64(14695981039346656037)
+	tags := []string{"nt", "enclen"}
+	for n := lo; n < hi; n++ {
+		p := enclenPayload(n)
+		b, pan := safeRESP(redis.NewBulkMessage(string(p)))
+		if pan {
+			return Result{Obs: fmt.Sprintf("panic@%d", n), Oracle: fmt.Sprintf("fail:serializing a bulk string of %d bytes failed", n), Tags: tags}
+		}
+		want := append(append([]byte("$"+strconv.Itoa(n)+"\r\n"), p...), '\r', '\n')
+		if !bytes.Equal(b, want) {
+			return Result{Obs: fmt.Sprintf("bad@%d", n), Oracle: fmt.Sprintf("fail:a bulk string of %d bytes is serialized with header %q and %d bytes in all", n, firstLine(b), len(b)), Tags: tags}
+		}
+		arr := proto.NewArray()
+		arr.Append(redis.NewBulkMessage(string(p)))
+		arr.Append(redis.NewIntegerMessage(7))
+		ab, pan := safeRESP(redis.NewArrayMessageWithArray(arr))
+		wantA := append(append([]byte("*2\r\n"), want...), []byte(":7\r\n")...)
+		if pan || !bytes.Equal(ab, wantA) {
+			return Result{Obs: fmt.Sprintf("bad@%d", n), Oracle: fmt.Sprintf("fail:a bulk string of %d bytes inside an array is serialized as %q... (%d bytes in all)", n, firstLine(ab[min(4, len(ab)):]), len(ab)), Tags: tags}
+		}
+		if n < 70000 || n%4 == 0 {
+			if obs, node, used := parseOne(b); node == nil || used != len(b) || !node.equal(&Node{Kind: 'b', P: p}) {
+				return Result{Obs: fmt.Sprintf("bad@%d", n), Oracle: fmt.Sprintf("fail:the serialization of a bulk string of %d bytes does not parse back (%s)", n, obs), Tags: tags}
+			}
+		}
+		h = enclenDigest(enclenDigest(h, b), ab)
+	}
+	return Result{Obs: fmt.Sprintf("digest=%016x", h), Oracle: "ok", Tags: tags}
+}
+
+func firstLine(b []byte) string {
+	if i := bytes.Index(b, []byte("\r\n")); i >= 0 && i < 40 {
+		return string(b[:i])
+	}
+	if len(b) > 40 {
+		b = b[:40]
+	}
+	return string(b)
+}
+
 func runC01(toks []string) Result {
 	switch toks[0] {
+	case "enclen":
+		return runEnclen(toks)
 	case "rt":
 		t, _ := parseNode(toks[1:])
 		msg := t.toMessage()
